@@ -53,9 +53,13 @@ CONSTANTS
   ExtLenZeroLoops,        \* nts.DecodePacket / authenticate: pos += Length-4 for Length < 4
   NonceLenUnchecked,      \* AEAD.Open is handed a network-supplied nonce of length # 16
   CookieDecodeUnchecked,  \* EncryptedServerCookie.Decode indexes / slices without bounds checks
-  PacketOverflowUnchecked,\* nts.EncodePacket: fields that do not fit MaxPacketLen (1024)
+  PacketOverflowUnchecked,\* nts.EncodePacket: fields that do not fit MaxPacketLen
   ShortUniqueIdEchoed,    \* server echoes a unique id of < 32 bytes: UniqueIdentifier.pack fails, EncodePacket panics
   CsptpShortDatagram      \* CSPTPClientIP: buf[MinMessageLength:] on a datagram shorter than 44 bytes
+
+\* nts.MaxPacketLen: size of an encoded NTS packet and of the NTS client's receive buffer
+\* (1024 in the tree this module was first written against; 1280 since 2504fca)
+MaxPacketLen == 1280
 
 AllKinds == {"ipsrv", "ipcli", "kesrv", "csptpsrv", "csptpcli"}
 IsClientKind(k) == k \in {"ipcli", "csptpcli"}
@@ -84,14 +88,17 @@ St(pc_, alive_, spin_, c_, g_) == [pc |-> pc_, alive |-> alive_, spin |-> spin_,
 J(s) == Len(s.c.rs) + 1          \* index of the datagram being processed
 
 PickC(sc, key, Dom) == IF Scripted(sc) THEN {sc[key]} \cap Dom ELSE Dom
+\* behind the last recorded datagram there is silence (nothing else was sent)
 PickG(s, sc, key, Dom) ==
   IF ~Scripted(sc) THEN Dom
-  ELSE IF J(s) <= Len(sc.rs) THEN {sc.rs[J(s)][key]} \cap Dom ELSE {}
+  ELSE IF J(s) <= Len(sc.rs) THEN {sc.rs[J(s)][key]} \cap Dom
+  ELSE IF key = "sz" THEN {"none"} ELSE {}
 
 (***************************************************************************)
 (* Terminal transitions of an input.                                       *)
 (***************************************************************************)
-Push(s) == [s EXCEPT !.c.rs = Append(@, s.g), !.g = G0]
+\* (nothing is recorded when no datagram is in flight, e.g. a client that fails before it sends)
+Push(s) == IF s.g = G0 THEN s ELSE [s EXCEPT !.c.rs = Append(@, s.g), !.g = G0]
 \* the input is dropped / reported as an error.  In the clients' receive loops
 \* most failures are retried once (numRetries != maxNumRetries && now < deadline)
 Fail(s, site, retryable) ==
@@ -117,7 +124,8 @@ Hang(s, site, alloc) == [Push(s) EXCEPT !.spin = TRUE, !.c.out = IF alloc THEN "
 (*      odd    5..7         cookie of 1..3 bytes                           *)
 (*      ok     the natural length of the field                             *)
 (*      small  uid only: value of 1..31 bytes (pack refuses < 32: panic)   *)
-(*      big    uid only: value > 968 bytes (echoed into a 1024-byte reply) *)
+(*      big    uid only: value > MaxPacketLen - 56 bytes (echoed into a     *)
+(*             reply of MaxPacketLen bytes: no room for the authenticator) *)
 (*      beyond pos + Length > len(b): ends the walk                        *)
 (***************************************************************************)
 F(t, l) == [t |-> t, l |-> l]
@@ -143,7 +151,7 @@ NumT(fs, t) == Cardinality({i \in DOMAIN fs : fs[i].t = t})
 \* the header that follows a `short` field overlaps it: its type is 0x0001..0x0003
 AfterShort(fs) == fs # << >> /\ fs[Len(fs)].l = "short"
 \* (two `big` fields do not fit the server's 2048-byte receive buffer, one does not fit the
-\* client's 1024-byte buffer together with anything else)
+\* client's MaxPacketLen-byte buffer together with anything else)
 FieldDomK(kind, fs) ==
   IF AfterShort(fs) THEN {f \in FieldAlpha : f.t = "unk"}
   ELSE IF kind = "ipcli" \/ \E i \in DOMAIN fs : fs[i].l = "big" THEN {f \in FieldAlpha : f.l # "big"}
@@ -168,9 +176,15 @@ Walk(s, sc, maxf, after) ==
         ELSE [s1 EXCEPT !.pc = after]
       Body(f) ==
         LET s1 == [s EXCEPT !.g.fs = Append(@, f)] IN
-        IF f.t = "auth" THEN Exit([s1 EXCEPT !.g.end = "auth"])       \* foundAuthenticator
-        ELSE IF f.l \in {"zero", "short"} /\ ~ExtLenZeroLoops
+        IF f.l \in {"zero", "short"} /\ ~ExtLenZeroLoops
              THEN Fail(s1, "nts.DecodePacket:extlen", TRUE)           \* repaired: Length < 4 is a decode error
+        \* repaired: UniqueIdentifier.unpack refuses an identifier that cannot be echoed (< 32 bytes: pack
+        \* fails; too long for a reply of MaxPacketLen)
+        ELSE IF f.t = "uid" /\ f.l \in {"four", "small"} /\ ~ShortUniqueIdEchoed
+             THEN Fail(s1, "nts.DecodePacket:errShortUniqueID", TRUE)
+        ELSE IF f.t = "uid" /\ f.l = "big" /\ ~PacketOverflowUnchecked
+             THEN Fail(s1, "nts.DecodePacket:errLongUniqueID", TRUE)
+        ELSE IF f.t = "auth" THEN Exit([s1 EXCEPT !.g.end = "auth"])  \* foundAuthenticator (its Length is not used)
         ELSE IF f.l = "zero"
              THEN Hang(s1, "nts.DecodePacket:extlen0", f.t = "cookie")
         ELSE IF f.l = "beyond" THEN Exit([s1 EXCEPT !.g.end = "beyond"])
@@ -262,7 +276,7 @@ SrvSucc(s, sc) ==
                         ELSE [s EXCEPT !.g.b0 = b, !.pc = "Validated"]
          : b \in PickG(s, sc, "b0", B0Dom(g.sz # "s48"))}
     [] s.pc = "Validated" ->      \* handleRequest, ntp.EncodePacket, nts.NewResponsePacket / EncodePacket
-        \* the reply echoes the request's (last) unique identifier into a 1024-byte buffer
+        \* the reply echoes the request's (last) unique identifier into a buffer of MaxPacketLen bytes
         IF g.sz # "s48" /\ LastOf(g.fs, "uid").l \in {"four", "small"}
         THEN {IF ShortUniqueIdEchoed THEN Die(s, "nts.EncodePacket:errShortUniqueID")
                                      ELSE Fail(s, "nts.DecodePacket:errShortUniqueID", FALSE)}
@@ -308,10 +322,12 @@ KeServer(ke) == LET A == {i \in DOMAIN ke : ke[i] \in {"srv", "srvx"}} IN
 
 Pad4(n) == ((n + 3) \div 4) * 4
 \* nts.NewRequestPacket + EncodePacket: 48 NTP + 36 unique id + one cookie + (8 - n) placeholders of
-\* the cookie's size, then the authenticator header.  extHdr.pack at pos needs pos + 4 <= 1024;
-\* copy() truncates silently, so pos saturates at 1024 and the NEXT header is the one that panics.
+\* the cookie's size, then the authenticator header.  extHdr.pack at pos needs pos + 4 <= MaxPacketLen;
+\* copy() truncates silently, so pos saturates at MaxPacketLen and the NEXT header is the one that panics.
 ReqAuthPos(n, size) == 84 + (4 + Pad4(size)) * (1 + (IF n < 8 THEN 8 - n ELSE 0))
-ReqOverflows(n, size) == ReqAuthPos(n, size) > 1020
+ReqOverflows(n, size) == ReqAuthPos(n, size) > MaxPacketLen - 4
+\* a cookie that does not fit a request even without placeholders: 48 + 36 + 4 + size + 40 > MaxPacketLen
+KeHasLong(ke) == \E i \in DOMAIN ke : CkSize(ke[i]) > MaxPacketLen - 128
 
 \* one ReadData step: next record symbol or the terminator; `onEom` etc. are successor builders
 KeStep(s, sc, syms, terms) ==
@@ -324,8 +340,9 @@ KeStep(s, sc, syms, terms) ==
 (***************************************************************************)
 (* ipcli: one call of measureClockOffsetIP                                 *)
 (***************************************************************************)
-\* receive buffer: 48 bytes without NTS (larger datagrams: MSG_TRUNC), 1024 with
-CliSizes(auth) == IF auth = "yes" THEN {"none", "s0", "s47", "s48", "s49", "s75", "ext", "s1024", "s1025"}
+\* receive buffer: 48 bytes without NTS (larger datagrams: MSG_TRUNC), MaxPacketLen with
+\* (smax: exactly MaxPacketLen bytes, sover: more)
+CliSizes(auth) == IF auth = "yes" THEN {"none", "s0", "s47", "s48", "s49", "s75", "ext", "smax", "sover"}
                                   ELSE {"none", "s0", "s47", "s48", "s49"}
 MetaDom == {"ok", "li3", "vn2", "mode3", "str0", "str16"}
 \* pairwise constraint: the response alphabet is explored in full behind ONE canonical key
@@ -354,17 +371,19 @@ CliSucc(s, sc) ==
          : t \in k.trm}
     [] s.pc = "KeDone" ->         \* exchangeKeys post-conditions, then the request is built
         IF KeCookies(c.ke) = 0 THEN {Fail(s, "ntske.exchangeKeys:errNoCookies", FALSE)}
+        \* repaired: a cookie that cannot fit a request is refused here ...
+        ELSE IF ~PacketOverflowUnchecked /\ KeHasLong(c.ke) THEN {Fail(s, "ntske.exchangeKeys:errCookieTooLong", FALSE)}
         ELSE IF KeAlgo(c.ke) # "aead" THEN {Fail(s, "ntske.exchangeKeys:errUnknownAlgo", FALSE)}
-        ELSE IF ReqOverflows(KeCookies(c.ke), KeFirstCookieSize(c.ke))
-             THEN {IF PacketOverflowUnchecked THEN Die(s, "nts.EncodePacket:overflow")
-                                              ELSE Fail(s, "nts.EncodePacket:overflow", FALSE)}
+        \* ... and NewRequestPacket adds only as many placeholders as fit; as written EncodePacket panics
+        ELSE IF PacketOverflowUnchecked /\ ReqOverflows(KeCookies(c.ke), KeFirstCookieSize(c.ke))
+             THEN {Die(s, "nts.EncodePacket:overflow")}
         ELSE IF KeServer(c.ke) = "srvx" THEN {Fail(s, "write:addr", FALSE)}   \* net.ParseIP = nil
         ELSE {[s EXCEPT !.pc = "ReqBuilt"]}
     [] s.pc = "ReqBuilt" -> {[s EXCEPT !.pc = "Await"]}   \* WriteToUDPAddrPort, ReadTXTimestamp
     [] s.pc = "Await" ->          \* ReadMsgUDPAddrPort until the deadline; flags; source address
         UNION {
           IF z = "none" THEN {Fail([s EXCEPT !.g.sz = z], "read:deadline", FALSE)}
-          ELSE IF z \in {"s1025"} \/ (c.auth = "no" /\ z = "s49") THEN {Fail([s EXCEPT !.g.sz = z], "read:flags", TRUE)}
+          ELSE IF z \in {"sover"} \/ (c.auth = "no" /\ z = "s49") THEN {Fail([s EXCEPT !.g.sz = z], "read:flags", TRUE)}
           ELSE {IF a = "other" THEN Fail([s EXCEPT !.g.sz = z, !.g.src = a], "source", TRUE)
                                ELSE [s EXCEPT !.g.sz = z, !.g.src = a, !.pc = "Parsed"]
                 : a \in PickG(s, sc, "src", Sub({"ok", "other"}, {"ok"}, FullResp(s)))}
@@ -492,7 +511,9 @@ CsCliSucc(s, sc) ==
          ELSE [s EXCEPT !.g.sz = z, !.pc = "Parsed"]
          : z \in PickG(s, sc, "sz", Sub({"none", "short", "min", "tlv", "tlvds", "over"}, {"none", "min", "tlvds"}, full))}
     [] s.pc = "Parsed" ->         \* DecodeMessage(buf[:44]); len(buf) != MessageLength; SequenceID
-        UNION {
+        \* repaired: a datagram shorter than a header is refused before anything else is looked at
+        IF g.sz = "short" /\ ~CsptpShortDatagram THEN {CsRetry(s, "csptp:size")}
+        ELSE UNION {
           IF m = "other" THEN {CsRetry([s EXCEPT !.g.ml = m], "csptp:msglen")}
           ELSE {IF q = "other" THEN CsRetry([s EXCEPT !.g.ml = m, !.g.seq = q], "csptp:seq")
                                ELSE [s EXCEPT !.g.ml = m, !.g.seq = q, !.pc = "Decoded"]
@@ -639,5 +660,7 @@ RunSet(S, sc, fuel) ==
 Start(kind) == St("Idle", TRUE, FALSE, C0(kind), G0)
 \* terminal states reachable for the script
 Finals(sc) == {s \in RunSet({Start(sc.kind)}, sc, 80) : s.c.out # "na"}
-Predicted(sc) == {<<s.c.out, s.c.site>> : s \in {t \in Finals(sc) : t.c.rs = sc.rs /\ t.c.ke = sc.ke}}
+\* (a run may end before the script does -- the repaired pipeline rejects an input at an earlier
+\* stage -- or behind it, in silence; every choice it made is the recorded one)
+Predicted(sc) == {<<s.c.out, s.c.site>> : s \in Finals(sc)}
 =============================================================================
